@@ -281,6 +281,106 @@ func TestVerif_C15_Conversions(t *testing.T) {
 	})
 }
 
+// The point formulas feed PRODUCTS of coordinates into the field routines; which limb patterns those products have cannot be
+// steered by choosing the point. It can by choosing the REPRESENTATIVE: with P2 affine, the first-level products of Add are linear in
+// the scaling factor l of P1 = (l*x1 : l*y1 : l) (X1*X2 = l*x1*x2, Y1*Y2 = l*y1*y2, Z1*Z2 = l), those of Double are quadratic
+// (X*Y = l^2*x*y, ...; solvable when the quotient is a square, p = 3 mod 4). l is solved so that one chosen product has a
+// word-structured Montgomery form (limbs 0 / 1 / 2^63 / 2^64-1 / ..., gen.Limbs): carry paths of whatever field code the formulas
+// call on that product (additions, doublings, subtractions) are reached by construction.
+func TestVerif_C15_StructuredIntermediates(t *testing.T) {
+	rec := stats.Get("C15", "structured-intermediates")
+	rec.Rule("rapid: P1 = [a]G in the representative (l*x : l*y : l), P2 = [b]G affine; l SOLVED so that one first-level product of the addition / doubling formula (Add: X1*X2, Y1*Y2 or Z1*Z2; Double: X*Y, X*Z, Y*Z, X^2, Y^2, Z^2 — when the quotient is a square, else Z itself) has, in Montgomery form, limbs drawn from {0,1,2,2^32-1,2^32,2^63,2^64-1} or mixed with uniform ones; both operand orders and receiver aliasing for Add. Oracle: the result encodes P1+P2 / 2*P1 by the affine reference and satisfies the projective curve equation. Non-trivial: the product was forced (verified by recomputation); distinct by (a,b,target,product).")
+	t.Cleanup(stats.FlushAll)
+	P := gen.P
+	inv := func(v *big.Int) *big.Int { return new(big.Int).ModInverse(v, P) }
+	mulm := func(a, b *big.Int) *big.Int { r := new(big.Int).Mul(a, b); return r.Mod(r, P) }
+	sqrtExp := new(big.Int).Rsh(new(big.Int).Add(P, big.NewInt(1)), 2)
+	sqrt := func(v *big.Int) (*big.Int, bool) {
+		r := new(big.Int).Exp(v, sqrtExp, P)
+		return r, mulm(r, r).Cmp(v) == 0
+	}
+	rapid.Check(t, func(t *rapid.T) {
+		W1, c1 := c15Operand(t, "p1")
+		W2, c2 := c15Operand(t, "p2")
+		if W1.Inf {
+			W1 = sm2ref.G
+		}
+		if W2.Inf {
+			W2 = sm2ref.Mul(big.NewInt(2), sm2ref.G)
+		}
+		T, lcls := gen.Limbs(t, "target")
+		Tc := mulm(T, c15RInv) // canonical value whose Montgomery form is T (mod p)
+		if Tc.Sign() == 0 {
+			Tc.SetInt64(1)
+			T = new(big.Int).Set(gen.Two256) // Montgomery form of 1
+		}
+		which := gen.Pick(t, "product", "add:X1X2", "add:Y1Y2", "add:Z1Z2", "add:Z1Z2", "double:XY", "double:XZ", "double:YZ", "double:XX", "double:YY", "double:ZZ")
+		var l *big.Int
+		forced := true
+		den := map[string]*big.Int{"add:X1X2": mulm(W1.X, W2.X), "add:Y1Y2": mulm(W1.Y, W2.Y), "add:Z1Z2": big.NewInt(1),
+			"double:XY": mulm(W1.X, W1.Y), "double:XZ": W1.X, "double:YZ": W1.Y, "double:XX": mulm(W1.X, W1.X), "double:YY": mulm(W1.Y, W1.Y), "double:ZZ": big.NewInt(1)}[which]
+		if den.Sign() == 0 {
+			l, forced = Tc, false
+		} else if which[:3] == "add" {
+			l = mulm(Tc, inv(den))
+		} else if r, ok := sqrt(mulm(Tc, inv(den))); ok && r.Sign() != 0 {
+			l = r
+		} else {
+			l, forced, which = Tc, true, "double:Z" // not a square: Z itself gets the structured value
+		}
+		p1 := c14FromRef(t, W1)
+		c15ScaleBy(p1, l)
+		p2 := c14FromRef(t, W2)
+		if forced {
+			// recompute the product from the coordinates actually handed to the formula and compare its Montgomery form with the target
+			X1, Y1, Z1 := p1.x.ToBigInt(), p1.y.ToBigInt(), p1.z.ToBigInt()
+			prod := map[string]*big.Int{"add:X1X2": mulm(X1, W2.X), "add:Y1Y2": mulm(Y1, W2.Y), "add:Z1Z2": Z1, "double:XY": mulm(X1, Y1), "double:XZ": mulm(X1, Z1),
+				"double:YZ": mulm(Y1, Z1), "double:XX": mulm(X1, X1), "double:YY": mulm(Y1, Y1), "double:ZZ": mulm(Z1, Z1), "double:Z": Z1}[which]
+			forced = mulm(prod, gen.Two256).Cmp(new(big.Int).Mod(T, P)) == 0
+			if !forced {
+				t.Fatalf("HARNESS: product %s not forced to the target", which)
+			}
+		}
+		var want sm2ref.Point
+		recv := NewSM2Generator()
+		alias := "fresh"
+		if which[:3] == "add" {
+			want = sm2ref.Add(W1, W2)
+			alias = gen.Pick(t, "shape", "fresh", "swapped", "recv=p1", "recv=p2")
+			switch alias {
+			case "fresh":
+				recv.Add(p1, p2)
+			case "swapped":
+				recv.Add(p2, p1)
+			case "recv=p1":
+				recv = p1
+				recv.Add(p1, p2)
+			default:
+				recv = p2
+				recv.Add(p1, p2)
+			}
+		} else {
+			want = sm2ref.Add(W1, W1)
+			if gen.Bool(t, "inplace") {
+				recv, alias = p1, "recv=p1"
+			}
+			recv.Double(p1)
+		}
+		detail := fmt.Sprintf("P1=%x P2=%x l=%x product=%s target(montgomery)=%x (%s) shape=%s", sm2ref.Encode(W1), sm2ref.Encode(W2), l, which, T, lcls, alias)
+		rec.Case(stats.Hash(sm2ref.Encode(W1), sm2ref.Encode(W2), T.Bytes(), []byte(which+alias)), forced, "product:"+which, lcls, "shape:"+alias, "p1:"+c1, "p2:"+c2)
+		if rec.WantSample(which) {
+			rec.Sample(which, map[string]interface{}{"P1": fmt.Sprintf("%x", sm2ref.Encode(W1)), "l": fmt.Sprintf("%x", l), "product": which, "montgomery_limbs_of_product": fmt.Sprintf("%064x", new(big.Int).Mod(T, P))})
+		}
+		if gb := recv.Bytes(); !bytes.Equal(gb, sm2ref.Encode(want)) {
+			vt.Fail(t, rec, "C15:intermediates:wrong", "point formula gives the wrong group element for a representative chosen to put a word-structured value into %s\n%s\n got %x\nwant %x", which, detail, gb, sm2ref.Encode(want))
+			return
+		}
+		if !c15OnCurveProjective(recv) {
+			vt.Fail(t, rec, "C15:intermediates:off-curve", "result does not satisfy the curve equation\n%s", detail)
+		}
+	})
+}
+
 // verifProp_C15_Decode builds the property (shared by the rapid test and the native fuzz target).
 func verifProp_C15_Decode() func(*rapid.T) {
 	rec := stats.Get("C15", "decode")
